@@ -316,7 +316,6 @@ class CaseRunner:
         for k, ps in enumerate((case['params'], case['params2'])):
             sub = c09_gen.normalise(dict(case, kind='toplevel', params=[dict(p) for p in ps], params2=[], namespaces=1))
             sub['id'] = case['id']
-            sub['uid'] = 'uid-%s-%d' % (tag, case['id'])
             subs.append(sub)
         lines = [[i for i, l in enumerate(c09_gen.render(sb).split('\n')) if l.startswith(('def f(', '@_deco'))][0] for sb in subs]
         if lines[0] != lines[1]:
@@ -334,7 +333,10 @@ class CaseRunner:
         malt, api = self.malt, self.api
         if case['kind'] == 'reloaded':
             return self.run_reloaded(case, tag)
-        case['uid'] = 'uid-%s-%d' % (tag, case['id'])
+        # a per-module constant keeps the code objects of different cases (and of the two versions of a reloaded module,
+        # which may differ only in which parameters have defaults) from comparing equal: malt's cache is keyed by code
+        # VALUE, and equal code objects sharing one conversion is C10's finding C10-equal-code-objects, not a C09 shape
+        case['uid'] = 'uid-%s-%d%s' % (tag, case['id'], '-v%d' % self.parent_case['version_failing'] if self.parent_case else '')
         text = c09_gen.render(case)
         crec = {'case': case, 'source': text}
         try:
